@@ -105,6 +105,46 @@ Theorem history_with_rejects :
 Proof. exact history_with_rejects_thm. Qed.
 Print Assumptions history_with_rejects.
 
+(* count = number of traces summed, and the sums are those of the accepted batches only (anchor of the property; uses the
+   history machinery of Model/Accum.v).  For every accumulator algebra with an associative cplus and left-neutral czero, every
+   family, every history from a fresh object whose batches carry as many rows as they announce ([wf_op]): processed_traces is
+   the number of rows of the ACCEPTED batches ([rows_of_hist]: in order, refused calls contribute nothing, a refused run
+   contributes its accepted prefix), and compute() is the function of that count and of Accum's ONE-SHOT accumulation
+   [one_shot f rows] = (Accum.upd czero rows) per accumulator over exactly these rows; before any accepted batch it raises. *)
+Theorem results_are_those_of_the_accepted_batches :
+  forall (C R O : Type) (czero : C) (cplus : C -> C -> C) (ccontrib : nat -> R -> C) (ccomp : Z -> list C -> O),
+  (forall a b c, cplus a (cplus b c) = cplus (cplus a b) c) ->
+  (forall a, cplus czero a = a) ->
+  forall (f : family) (c : config) (h : list (hop R)),
+  Forall (wf_op R) h ->
+  let st := fst (run_hist C R O czero cplus ccontrib ccomp repaired f (fresh f c) h) in
+  let rows := rows_of_hist C R O czero cplus ccontrib ccomp f (fresh f c) h in
+  processed (bnd st) = Z.of_nat (List.length rows)
+  /\ compute C O czero ccomp f st
+     = match rows with
+       | [] => None
+       | _ => Some (ccomp (Z.of_nat (List.length rows)) (one_shot C R czero cplus ccontrib f rows))
+       end.
+Proof. exact results_are_those_of_the_accepted_batches_thm. Qed.
+Print Assumptions results_are_those_of_the_accepted_batches.
+
+(* every accepted update adds, in place, the batch's contribution to every accumulator cell exactly once (whatever the
+   statement order of the += and whichever kernel runs), increments the count once, and leaves the names bound to the same cells *)
+Theorem accepted_update_accumulates :
+  forall (C R : Type) (czero : C) (cplus : C -> C -> C) (ccontrib : nat -> R -> C)
+         (f : family) (st : ostate C) (b : batch R) (st' : ostate C) (base : nat) (X : nat -> C),
+  update C R czero cplus ccontrib repaired f st b = (st', Accepted) ->
+  List.length (accs (bnd st)) = nacc f ->
+  (if inited (bnd st)
+   then accs (bnd st) = accs_at base (nacc f) /\ (base + nacc f <= List.length (heap st))%nat
+        /\ (forall i, (i < nacc f)%nat -> nth (base + i) (heap st) czero = X i)
+   else base = List.length (heap st) /\ forall i, (i < nacc f)%nat -> X i = czero) ->
+  accs (bnd st') = accs_at base (nacc f) /\ (base + nacc f <= List.length (heap st'))%nat
+  /\ (forall i, (i < nacc f)%nat -> nth (base + i) (heap st') czero = cplus (X i) (cbsum C R czero cplus ccontrib i (b_rows b)))
+  /\ processed (bnd st') = processed (bnd st) + b_n b /\ inited (bnd st') = true.
+Proof. exact update_accumulates. Qed.
+Print Assumptions accepted_update_accumulates.
+
 (* refused_first_call_harmless: a refused first call leaves the fresh object, so any later call behaves as on a new object *)
 Theorem refused_first_call_harmless :
   forall (C R : Type) (czero : C) (cplus : C -> C -> C) (ccontrib : nat -> R -> C)
@@ -224,6 +264,21 @@ Example every_rejection_kind_occurs :
        [HUpdate (g 1 5 5 4); HUpdate (g 2 5 4 4); HUpdate (g 3 5 6 4); HUpdate (g 4 5 4 6)]
   = [Some RTemplTraceLen; None; Some RTraceLen; Some RWordCount].
 Proof. vm_compute. repeat split; reflexivity. Qed.
+
+(* results_are_those_of_the_accepted_batches on integers: accumulator k sums (k+1) * row; a refused batch (trace length)
+   between two accepted ones; count 3 = rows 1, 2 and 5 *)
+Example accum_example :
+  let mkb rows tl := {| b_tr_array := true; b_da_array := true; b_n := Z.of_nat (List.length rows); b_nd := Z.of_nat (List.length rows);
+                        b_tdim := 2; b_tlen := tl; b_words := 2; b_dmax := 1; b_dmin := 0; b_dkind := DUint8; b_tkind := TNum;
+                        b_const := false; b_mem_ok := true; b_alloc_ok := true; b_user_raises := false; b_rows := rows |} in
+  let h := [HUpdate (mkb [1; 2] 4); HUpdate (mkb [3; 4] 5); HUpdate (mkb [5] 4)] in
+  let contrib := fun (k : nat) (r : Z) => Z.of_nat (S k) * r in
+  Forall (wf_op Z) h
+  /\ rows_of_hist Z Z (Z * list Z) 0 Z.add contrib (fun n cells => (n, cells)) FDpa (fresh FDpa no_config) h = [1; 2; 5]
+  /\ compute Z (Z * list Z) 0 (fun n cells => (n, cells)) FDpa
+       (fst (run_hist Z Z (Z * list Z) 0 Z.add contrib (fun n cells => (n, cells)) repaired FDpa (fresh FDpa no_config) h))
+     = Some (3, [8; 16; 24]).
+Proof. split; [repeat constructor|]. vm_compute. split; reflexivity. Qed.
 
 (* the correspondence check accepts faithful observations and rejects the damage of each of the orders before the repairs *)
 Example upd_check_discriminates :
